@@ -284,6 +284,8 @@ class Explorer:
             if ln == "RUN":
                 cur = []
                 mruns.append(cur)
+            elif cur is not None and ln.startswith("G "):
+                self.ghost(ln)
             elif cur is not None and ln and ln != "END":
                 cur.append(ln)
         problems = []
@@ -311,6 +313,28 @@ class Explorer:
                                  "msg": "model and implementation disagree at line %d: impl `%s` model `%s`" % (
                                      d, a[d] if d < len(a) else "<eof>", b[d] if d < len(b) else "<eof>")})
         return problems
+
+    def ghost(self, ln):
+        """model-only line at the end of a co-simulated run: were the hypotheses of the data-path theorems met, and do their
+        conclusions hold on this executed trace? (a self-check of the theorems' statements on real runs; also non-vacuity evidence)"""
+        kv = dict(t.split("=") for t in ln.split()[2:])
+        g = self.stats.setdefault("ghost", {"streams": 0, "prefix_hyps_met": 0, "prefix_holds": 0, "complete_hyps_met": 0, "complete_holds": 0,
+                                            "monitor_fresh": 0, "contradictions": []})
+        g["streams"] += 1
+        if kv["camfail"] == "0" and kv["misused"] == "0" and kv["clean"] == "1":
+            g["prefix_hyps_met"] += 1
+            if kv["inorder"] == "1" and int(kv["log"]) <= int(kv["ncommit"]):
+                g["prefix_holds"] += 1
+            elif len(g["contradictions"]) < 3:
+                g["contradictions"].append(ln)
+            if kv["drained"] == "1" and kv["disturbed"] == "0":
+                g["complete_hyps_met"] += 1
+                if kv["log"] == kv["max"] and kv["inorder"] == "1":
+                    g["complete_holds"] += 1
+                elif len(g["contradictions"]) < 3:
+                    g["contradictions"].append(ln)
+        if kv["monfresh"] == "1":
+            g["monitor_fresh"] += 1
 
     # -- reporting
     def report(self, sc, p, relevant=None):
@@ -381,6 +405,10 @@ class Explorer:
                                      "ring_laps_at_end_of_cosim_runs": st["wraps"], "scheduler_decisions_compared": st["decisions"],
                                      "cosim_runs": st["cosim_runs"]}
         cov["samples"] = self.samples[:6]
+        if "ghost" in st:
+            cov["theorem_hypotheses_in_cosimulated_runs"] = st["ghost"]
+            if st["ghost"]["contradictions"]:
+                self.ctx.corr_broken.append({"what": "an executed trace of the model contradicts a data-path theorem's statement", "lines": st["ghost"]["contradictions"]})
 
 
 def explore(ctx, ex, classes, nscen, nsched, relevant=None, extra_runs=("explicit  fair",)):
